@@ -248,6 +248,12 @@ def run(F, chk):
                     chk.violation("R12.2", "C12/R12.2:prune:%s" % ("toSSE" if i else "loop"), where(fn, s),
                                   "a conversion loop is not followed by DeleteUnreferencedBlocks: the replaced geometry data blocks stay in the file")
     chk.floor(R2, 5)
+    # ---------------------------------------------------------------- R12.4 (= C09 R9.7 on the same facts)
+    chk.share(F, "c09", ["R9.7"], "R12.4",
+              "the conversion triangulates every strip partition before it re-derives the triangle-to-partition assignment: the "
+              "per-partition conversion is not made from a short-circuiting accumulation or algorithm predicate")
+    chk.floor("R12.4", 0)
+
     chk.assumptions += ["geometry, weight and colour arithmetic, partition index conventions (bMappedIndices) and there-and-back "
                         "equivalence are numeric and not decided"]
     chk.extra["explanation"] = "sibling agreement of both conversion directions and must-calls around block replacement only"
